@@ -22,7 +22,7 @@ if r.compile_error:
     print('COMPILE ERROR\n', r.compile_error)
     sys.exit(2)
 for f in r.failures:
-    print('FAIL [%s] %s in %s %s:%s\n     %s %s' % (f.tag, f.message, f.item, f.file, f.line, f.text[:160], f.detail[:300]))
+    print('FAIL [%s] %s in %s %s:%s\n     %s %s' % (f.tag, f.message, f.item, f.file, f.line, f.text[:160], f.detail[:400]))
     if a.raw: print(f.raw)
 print('verified=%d errors=%d smt_ms=%d wall=%.1fs' % (r.verified, r.errors, r.smt_ms, r.wall_s))
 slow = sorted(r.functions, key=lambda x: -x[2])[:5]
